@@ -14,6 +14,7 @@ import (
 	"github.com/dolthub/dolt/go/store/hash"
 	"github.com/dolthub/dolt/go/store/nbs"
 
+	"verif/oracle"
 	"verif/rig"
 )
 
@@ -42,25 +43,25 @@ func (s *c01Store) open() error {
 		}
 		s.cs = s.ms.NewViewWithDefaultFormat()
 	case kindLocal:
-		st, err := openLocal(s.dir, s.mem)
+		st, err := oracle.OpenLocal(s.dir, s.mem)
 		if err != nil {
 			return err
 		}
 		s.cs = st
 	case kindJournal:
-		st, err := openJournal(s.dir)
+		st, err := oracle.OpenJournal(s.dir)
 		if err != nil {
 			return err
 		}
 		s.cs = st
 	case kindGen:
-		ng, err := openJournal(s.dir)
+		ng, err := oracle.OpenJournal(s.dir)
 		if err != nil {
 			return err
 		}
 		og := filepath.Join(s.dir, "oldgen")
 		os.MkdirAll(og, 0o755)
-		old, err := openLocal(og, s.mem)
+		old, err := oracle.OpenLocal(og, s.mem)
 		if err != nil {
 			return err
 		}
@@ -112,7 +113,7 @@ func c01History(c *rig.Ctx, r *rand.Rand, kind storeKind, idx int) {
 			st.cs.Close()
 		}
 	}()
-	m := newModel()
+	m := oracle.NewModel()
 	committed := hash.NewHashSet() // chunks known to be covered by a successful Commit (quiescent check set)
 	pending := hash.NewHashSet()
 	var shape bytes.Buffer
@@ -133,30 +134,30 @@ func c01History(c *rig.Ctx, r *rand.Rand, kind storeKind, idx int) {
 			for j := 0; j < nput; j++ {
 				var refs []hash.Hash
 				for k := r.Intn(3); k > 0; k-- {
-					if h, ok := m.pick(r); ok {
+					if h, ok := m.Pick(r); ok {
 						refs = append(refs, h)
 					}
 				}
-				data := encodeChunkData(refs, genBody(r, maxBody))
+				data := oracle.EncodeChunkData(refs, oracle.GenBody(r, maxBody))
 				var ch chunks.Chunk
 				forged := r.Intn(10) < 4
 				if forged {
 					if len(fam) == 0 {
-						fam = forgeFamily(r, 2+r.Intn(15))
+						fam = oracle.ForgeFamily(r, 2+r.Intn(15))
 					}
 					ch = chunks.NewChunkWithHash(fam[0], data)
 					fam = fam[1:]
-					if _, dup := m.data[ch.Hash()]; dup {
+					if _, dup := m.Data[ch.Hash()]; dup {
 						continue
 					}
 				} else {
 					ch = chunks.NewChunk(data)
 				}
-				if err := st.cs.Put(bg, ch, getAddrsCurry); err != nil {
-					c.Violation("c01/put-error/"+string(kind), fmt.Sprintf("Put(%s) of a chunk whose refs are all present failed: %v", short(ch.Hash()), err), nil)
+				if err := st.cs.Put(bg, ch, oracle.GetAddrsCurry); err != nil {
+					c.Violation("c01/put-error/"+string(kind), fmt.Sprintf("Put(%s) of a chunk whose refs are all present failed: %v", oracle.Short(ch.Hash()), err), nil)
 					return
 				}
-				m.add(ch, forged)
+				m.Add(ch, forged)
 				pending.Insert(ch.Hash())
 			}
 			shape.WriteByte('p')
@@ -167,12 +168,12 @@ func c01History(c *rig.Ctx, r *rand.Rand, kind storeKind, idx int) {
 				return
 			}
 			nr := root
-			if h, ok := m.pick(r); ok {
+			if h, ok := m.Pick(r); ok {
 				nr = h
 			}
 			ok, err := st.cs.Commit(bg, nr, root)
 			if err != nil || !ok {
-				c.Violation("c01/commit-failed/"+string(kind), fmt.Sprintf("single-writer Commit(%s,%s) = %v, %v", short(nr), short(root), ok, err), nil)
+				c.Violation("c01/commit-failed/"+string(kind), fmt.Sprintf("single-writer Commit(%s,%s) = %v, %v", oracle.Short(nr), oracle.Short(root), ok, err), nil)
 				return
 			}
 			for h := range pending {
@@ -200,10 +201,10 @@ func c01History(c *rig.Ctx, r *rand.Rand, kind storeKind, idx int) {
 					return
 				}
 				if !has {
-					delete(m.data, h)
-					for i, o := range m.order {
+					delete(m.Data, h)
+					for i, o := range m.Order {
 						if o == h {
-							m.order = append(m.order[:i], m.order[i+1:]...)
+							m.Order = append(m.Order[:i], m.Order[i+1:]...)
 							break
 						}
 					}
@@ -227,13 +228,13 @@ func c01History(c *rig.Ctx, r *rand.Rand, kind storeKind, idx int) {
 			}
 			st.ghost = g
 			shape.WriteByte('g')
-		case op == 9 && kind == kindGen && len(m.order) > 0 && r.Intn(2) == 0:
+		case op == 9 && kind == kindGen && len(m.Order) > 0 && r.Intn(2) == 0:
 			// move some committed chunks' copies into old gen directly (what GC does), keeping closure order
 			old := st.oldGen
 			cnt := 0
-			for _, h := range m.order {
-				if committed.Has(h) && r.Intn(3) == 0 && len(decodeRefs(m.data[h])) == 0 {
-					if err := old.Put(bg, chunks.NewChunkWithHash(h, m.data[h]), getAddrsCurry); err != nil {
+			for _, h := range m.Order {
+				if committed.Has(h) && r.Intn(3) == 0 && len(oracle.DecodeRefs(m.Data[h])) == 0 {
+					if err := old.Put(bg, chunks.NewChunkWithHash(h, m.Data[h]), oracle.GetAddrsCurry); err != nil {
 						c.Violation("c01/oldgen-put", err.Error(), nil)
 						return
 					}
@@ -266,30 +267,30 @@ func c01History(c *rig.Ctx, r *rand.Rand, kind storeKind, idx int) {
 	if committed.Size() > 0 && collisionLookups > 0 {
 		c.Distinct(string(kind) + "/" + shape.String() + fmt.Sprint(st.mem))
 	}
-	c.Sample(map[string]any{"case": name, "kind": kind, "memtable": st.mem, "steps": shape.String(), "chunks": len(m.order), "prefix_collision_lookups": collisionLookups})
+	c.Sample(map[string]any{"case": name, "kind": kind, "memtable": st.mem, "steps": shape.String(), "chunks": len(m.Order), "prefix_collision_lookups": collisionLookups})
 }
 
 // c01CompareReads asks every lookup path about present, neighbouring and random addresses.
-func c01CompareReads(c *rig.Ctx, r *rand.Rand, st *c01Store, m *model, name string) int {
+func c01CompareReads(c *rig.Ctx, r *rand.Rand, st *c01Store, m *oracle.Model, name string) int {
 	probe := hash.NewHashSet()
 	prefixCount := map[[8]byte]int{}
-	for h := range m.data {
+	for h := range m.Data {
 		var p [8]byte
 		copy(p[:], h[:8])
 		prefixCount[p]++
 	}
-	// all present (bounded) + neighbours + random
+	// all present (bounded) + oracle.Neighbours + random
 	cnt := 0
-	for _, h := range m.order {
-		if _, ok := m.data[h]; !ok {
+	for _, h := range m.Order {
+		if _, ok := m.Data[h]; !ok {
 			continue
 		}
-		if len(m.order) > 150 && r.Intn(len(m.order)) > 150 {
+		if len(m.Order) > 150 && r.Intn(len(m.Order)) > 150 {
 			continue
 		}
 		probe.Insert(h)
 		if cnt < 40 {
-			for _, nb := range neighbours(h) {
+			for _, nb := range oracle.Neighbours(h) {
 				probe.Insert(nb)
 			}
 		}
@@ -307,16 +308,16 @@ func c01CompareReads(c *rig.Ctx, r *rand.Rand, st *c01Store, m *model, name stri
 	for h := range probe {
 		var p [8]byte
 		copy(p[:], h[:8])
-		if prefixCount[p] >= 2 || (prefixCount[p] == 1 && m.data[h] == nil) {
+		if prefixCount[p] >= 2 || (prefixCount[p] == 1 && m.Data[h] == nil) {
 			collisions++
 		}
 	}
-	expectPresent := func(h hash.Hash) bool { _, ok := m.data[h]; return ok }
+	expectPresent := func(h hash.Hash) bool { _, ok := m.Data[h]; return ok }
 	isGhost := func(h hash.Hash) bool { return st.ghost != nil && st.ghost.Has(h) && !expectPresent(h) }
 	kind := string(st.kind)
 	bad := func(path string, h hash.Hash, what string) {
 		c.Violation(fmt.Sprintf("c01/%s/%s", kind, path), fmt.Sprintf("%s: address %s: %s", path, h, what),
-			map[string]any{"address": h.String(), "forged": m.forged[h], "store": kind, "dir": dirListing(st.dir)})
+			map[string]any{"address": h.String(), "forged": m.Forged[h], "store": kind, "dir": oracle.DirListing(st.dir)})
 	}
 	checkChunk := func(path string, h hash.Hash, ch chunks.Chunk) {
 		if ch.Hash() != h {
@@ -329,7 +330,7 @@ func c01CompareReads(c *rig.Ctx, r *rand.Rand, st *c01Store, m *model, name stri
 			}
 			return
 		}
-		want, ok := m.data[h]
+		want, ok := m.Data[h]
 		if !ok {
 			bad(path, h, fmt.Sprintf("never-written address returned %d bytes", len(ch.Data())))
 			return
@@ -338,12 +339,12 @@ func c01CompareReads(c *rig.Ctx, r *rand.Rand, st *c01Store, m *model, name stri
 			bad(path, h, fmt.Sprintf("returned %d bytes that differ from the %d bytes stored", len(ch.Data()), len(want)))
 			return
 		}
-		if !m.forged[h] && hash.Of(ch.Data()) != h {
+		if !m.Forged[h] && hash.Of(ch.Data()) != h {
 			bad(path, h, "content hash of returned bytes != address")
 		}
 	}
 	// Get / Has
-	for _, h := range sortedHashes(probe) {
+	for _, h := range oracle.SortedHashes(probe) {
 		ch, err := st.cs.Get(bg, h)
 		if err != nil {
 			bad("Get", h, "error "+err.Error())
@@ -390,7 +391,7 @@ func c01CompareReads(c *rig.Ctx, r *rand.Rand, st *c01Store, m *model, name stri
 		}
 	}
 	// GetManyCompressed
-	if cg, ok := st.cs.(compressedGetter); ok {
+	if cg, ok := st.cs.(oracle.CompressedGetter); ok {
 		got2 := map[hash.Hash]int{}
 		err := cg.GetManyCompressed(bg, probe.Copy(), func(_ context.Context, tc nbs.ToChunker) {
 			mu.Lock()
@@ -448,8 +449,8 @@ func c01CompareReads(c *rig.Ctx, r *rand.Rand, st *c01Store, m *model, name stri
 }
 
 // c01Quiescent compares full iteration / Count with the committed part of the model.
-func c01Quiescent(c *rig.Ctx, st *c01Store, m *model, committed hash.HashSet, name string) {
-	it, ok := st.cs.(iterAll)
+func c01Quiescent(c *rig.Ctx, st *c01Store, m *oracle.Model, committed hash.HashSet, name string) {
+	it, ok := st.cs.(oracle.IterAll)
 	if !ok || st.kind == kindMemory {
 		return
 	}
@@ -461,7 +462,7 @@ func c01Quiescent(c *rig.Ctx, st *c01Store, m *model, committed hash.HashSet, na
 		defer mu.Unlock()
 		h := ch.Hash()
 		seen[h]++
-		want, ok := m.data[h]
+		want, ok := m.Data[h]
 		if !ok {
 			// chunks dropped from the model at a reopen cannot reappear; anything else was never written
 			c.Violation("c01/"+kind+"/IterateAllChunks", fmt.Sprintf("iteration produced never-written address %s", h), nil)
@@ -476,8 +477,8 @@ func c01Quiescent(c *rig.Ctx, st *c01Store, m *model, committed hash.HashSet, na
 		return
 	}
 	for h := range committed {
-		if _, still := m.data[h]; still && seen[h] == 0 {
-			c.Violation("c01/"+kind+"/IterateAllChunks", fmt.Sprintf("committed chunk %s missing from full iteration", h), map[string]any{"dir": dirListing(st.dir)})
+		if _, still := m.Data[h]; still && seen[h] == 0 {
+			c.Violation("c01/"+kind+"/IterateAllChunks", fmt.Sprintf("committed chunk %s missing from full iteration", h), map[string]any{"dir": oracle.DirListing(st.dir)})
 		}
 	}
 	total := 0
